@@ -127,6 +127,10 @@ fn fresh_then_used<C: Cone<f64>>(c: &mut C, dz: &[f64], ds: &[f64], z: &[f64], s
     Ok(first)
 }
 
+/// common scale factors applied to point and direction together (exact powers of two would be invisible
+/// to rounding; these are not)
+pub const COMMON_SCALES: [f64; 3] = [1.0, 1e-18, 1e12];
+
 pub struct SymSteps {
     pub kind: Kind,
 }
@@ -159,7 +163,10 @@ impl SymSteps {
         let s = interior(&self.kind, (dir + 1) % 3, delta, mag);
         let (dz, label) = direction(&self.kind, &z, wd, dmag);
         let (ds, _) = direction(&self.kind, &s, (wd + 1) % ndirs(n), dmag);
-        (z, s, dz, ds, amax, label.to_string())
+        // cones are invariant under positive scaling: the whole configuration at a common scale
+        let sc = *dg.pick(&COMMON_SCALES);
+        let f = |v: Vec<f64>| -> Vec<f64> { v.into_iter().map(|x| x * sc).collect() };
+        (f(z), f(s), f(dz), f(ds), amax, label.to_string())
     }
 }
 
@@ -180,14 +187,14 @@ impl Space for SymSteps {
         format!("sym-steps-{:?}", self.kind)
     }
     fn size(&self) -> u64 {
-        ALPHAMAX.len() as u64 * 3 * ndirs(self.kind.numel_pub()) * self.npts()
+        ALPHAMAX.len() as u64 * 3 * ndirs(self.kind.numel_pub()) * self.npts() * COMMON_SCALES.len() as u64
     }
     fn describe(&self, id: u64) -> Value {
         let (z, s, dz, ds, amax, label) = self.decode(id);
         json!({"cone": format!("{:?}", self.kind), "z": z, "s": s, "dz": dz, "ds": ds, "alpha_max": amax, "dz_kind": label})
     }
     fn bound(&self) -> Value {
-        json!({"points": self.npts(), "directions": ndirs(self.kind.numel_pub()), "direction_magnitudes": [1.0,1e-3,1e3], "alpha_max": ALPHAMAX})
+        json!({"points": self.npts(), "directions": ndirs(self.kind.numel_pub()), "direction_magnitudes": [1.0,1e-3,1e3], "alpha_max": ALPHAMAX, "common_scale": COMMON_SCALES})
     }
     fn run(&self, id: u64, ctx: &mut Ctx) -> CaseResult {
         let (z, s, dz, ds, amax, _label) = self.decode(id);
@@ -307,7 +314,9 @@ impl NonsymSteps {
         let fake = Kind::NN(n);
         let (dz, _) = direction(&fake, &z, wd, dmag);
         let (ds, _) = direction(&fake, &s, (wd + 3) % ndirs(n), dmag);
-        (z, s, dz, ds, amax, step, amin)
+        let sc = *dg.pick(&COMMON_SCALES);
+        let f = |v: Vec<f64>| -> Vec<f64> { v.into_iter().map(|x| x * sc).collect() };
+        (f(z), f(s), f(dz), f(ds), amax, step, amin)
     }
 }
 impl Space for NonsymSteps {
@@ -315,7 +324,7 @@ impl Space for NonsymSteps {
         format!("nonsym-steps-{:?}", self.kind)
     }
     fn size(&self) -> u64 {
-        ALPHAMAX.len() as u64 * 3 * 3 * ndirs(self.kind.n()) * NPTS
+        ALPHAMAX.len() as u64 * 3 * 3 * ndirs(self.kind.n()) * NPTS * COMMON_SCALES.len() as u64
     }
     fn describe(&self, id: u64) -> Value {
         let (z, s, dz, ds, amax, step, amin) = self.decode(id);
